@@ -1894,3 +1894,259 @@ Proof.
                 [ACall (RNew 1) 2 0; ADyn (RNew 1) 1 0]).
   repeat split; try reflexivity. vm_compute. discriminate.
 Qed.
+
+(* ============================================================================================== *)
+(* Part O : move_staticmethod_static_scope -- the target of a redirected access                    *)
+(* ============================================================================================== *)
+Definition uniq_meths (M : module) : bool := forallb (fun k => nodup_names (map m_name (c_meths k))) (classes M).
+
+Lemma ms_new_name_facts M k x n :
+  ms_new_name M k x = Some n ->
+  m_kind x = KStatic /\ nmem n (static_names M) = false /\
+  (n = moved_name (m_name x) \/ n = moved_name_c (c_name k) (m_name x)).
+Proof.
+  unfold ms_new_name, ms_new_name_in.
+  destruct (nmem (m_name x) (attrs_to_preserve M)); [discriminate|].
+  destruct (nmem (m_name x) (map snd (c_alias k))); [discriminate|].
+  destruct (is_magic (m_name x)); [discriminate|].
+  destruct (m_kind x); try discriminate.
+  destruct (overridden_in (cfn M) M (c_name k) (m_name x)); [discriminate|].
+  destruct (is_mangled (m_name x)); [discriminate|].
+  destruct (nmem (moved_name (m_name x)) (static_names M)) eqn:E1; simpl.
+  - destruct (nmem (moved_name_c (c_name k) (m_name x)) (static_names M)) eqn:E2; simpl; [discriminate|].
+    intros H; inversion H; subst. auto.
+  - intros H; inversion H; subst. auto.
+Qed.
+
+Lemma plan_in M k x n :
+  In k (classes M) -> c_base k = None -> In x (c_meths k) -> ms_new_name M k x = Some n ->
+  In ((c_name k, m_name x), n) (ms_plan M).
+Proof.
+  intros Hk Hb Hx Hn. unfold ms_plan. apply in_flat_map. exists k. split; [exact Hk|]. rewrite Hb.
+  apply in_flat_map. exists x. split; [exact Hx|]. fold (ms_new_name M k x). rewrite Hn. left; reflexivity.
+Qed.
+Lemma plan_inv M c m n :
+  In ((c, m), n) (ms_plan M) ->
+  exists k x, In k (classes M) /\ c_base k = None /\ In x (c_meths k) /\ c_name k = c /\ m_name x = m
+              /\ ms_new_name M k x = Some n.
+Proof.
+  unfold ms_plan. intros H. apply in_flat_map in H. destruct H as [k [Hk H]].
+  destruct (c_base k) eqn:Eb; [contradiction|]. apply in_flat_map in H. destruct H as [x [Hx H]].
+  fold (ms_new_name M k x) in H. destruct (ms_new_name M k x) as [n'|] eqn:En; [|contradiction].
+  destruct H as [H|[]]. inversion H; subst. exists k, x. auto 10.
+Qed.
+
+(* with distinct new names, an entry of the plan is found by its key *)
+Lemma plan_find_in pl c m n :
+  nodup_names (map snd pl) = true ->
+  (forall n', In ((c, m), n') pl -> n' = n) ->
+  In ((c, m), n) pl -> plan_find pl c m = Some n.
+Proof.
+  induction pl as [|[[c' m'] n'] tl IH]; simpl; intros Hn Hu Hin; [contradiction|].
+  apply andb_true_iff in Hn. destruct Hn as [Hn1 Hn2].
+  destruct (Nat.eqb c c' && Nat.eqb m m') eqn:E.
+  - apply andb_true_iff in E. destruct E as [E1 E2]. apply Nat.eqb_eq in E1. apply Nat.eqb_eq in E2. subst.
+    f_equal. apply Hu. left. reflexivity.
+  - destruct Hin as [Hin|Hin].
+    + inversion Hin; subst. rewrite !Nat.eqb_refl in E. discriminate.
+    + apply IH; auto.
+Qed.
+
+Lemma plan_find_some pl c m n : plan_find pl c m = Some n -> In ((c, m), n) pl.
+Proof.
+  induction pl as [|[[c' m'] n'] tl IH]; simpl; [discriminate|].
+  destruct (Nat.eqb c c' && Nat.eqb m m') eqn:E.
+  - apply andb_true_iff in E. destruct E as [E1 E2]. apply Nat.eqb_eq in E1. apply Nat.eqb_eq in E2.
+    intros H; inversion H; subst. left; reflexivity.
+  - intros H. right. auto.
+Qed.
+Lemma nodup_snd_inj {A} (pl : list (A * name)) k1 k2 n :
+  nodup_names (map snd pl) = true -> In (k1, n) pl -> In (k2, n) pl -> k1 = k2.
+Proof.
+  induction pl as [|[k0 n0] tl IH]; simpl; [contradiction|]. intros Hn H1 H2.
+  apply andb_true_iff in Hn. destruct Hn as [Hn1 Hn2]. apply negb_true_iff in Hn1.
+  assert (Hno : forall k', In (k', n0) tl -> False).
+  { intros k' Hk'. assert (nmem n0 (map snd tl) = true); [|congruence].
+    apply nmem_In. apply in_map_iff. exists (k', n0). auto. }
+  destruct H1 as [H1|H1], H2 as [H2|H2].
+  - congruence.
+  - inversion H1; subst. exfalso. eapply Hno; eauto.
+  - inversion H2; subst. exfalso. eapply Hno; eauto.
+  - eapply IH; eauto.
+Qed.
+Lemma nodup_names_inj {A} (nm : A -> name) (l : list A) x y :
+  nodup_names (map nm l) = true -> In x l -> In y l -> nm x = nm y -> x = y.
+Proof.
+  induction l as [|z tl IH]; simpl; [contradiction|].
+  intros H Hx Hy E. apply andb_true_iff in H. destruct H as [H1 H2]. apply negb_true_iff in H1.
+  assert (Hn : forall w, In w tl -> nm w <> nm z).
+  { intros w Hw Ew. assert (nmem (nm z) (map nm tl) = true); [|congruence].
+    apply nmem_In. apply in_map_iff. exists w. auto. }
+  destruct Hx as [->|Hx], Hy as [->|Hy]; auto.
+  - exfalso. apply (Hn y Hy). auto.
+  - exfalso. apply (Hn x Hx). auto.
+Qed.
+
+Lemma find_fn_app l1 l2 f :
+  find_fn (l1 ++ l2) f = match find_fn l1 f with Some g => Some g | None => find_fn l2 f end.
+Proof.
+  induction l1 as [|[k|g] tl IH]; simpl; auto. destruct (Nat.eqb (f_name g) f); auto.
+Qed.
+
+Definition moved_fn (pl : list ((name * name) * name)) (k : cls) (x : meth) (n : name) : func :=
+  mkFunc n (m_params x) (map (ms_act pl (Some (c_name k))) (m_body x)).
+Definition emit_fns (pl : list ((name * name) * name)) (k : cls) (ms : list meth) : list item :=
+  flat_map (fun x => match plan_find pl (c_name k) (m_name x) with
+                     | Some n => [IFunc (moved_fn pl k x n)]
+                     | None => [] end) ms.
+
+Lemma emit_none pl k ms n :
+  (forall y, In y ms -> plan_find pl (c_name k) (m_name y) <> Some n) -> find_fn (emit_fns pl k ms) n = None.
+Proof.
+  induction ms as [|y tl IH]; simpl; intros H; [reflexivity|].
+  destruct (plan_find pl (c_name k) (m_name y)) as [n'|] eqn:E; simpl.
+  - destruct (Nat.eqb n' n) eqn:En.
+    + apply Nat.eqb_eq in En. subst. exfalso. apply (H y); auto.
+    + apply IH. intros; apply H; auto.
+  - apply IH. intros; apply H; auto.
+Qed.
+Lemma emit_found pl k ms x n :
+  In x ms -> plan_find pl (c_name k) (m_name x) = Some n ->
+  (forall y, In y ms -> plan_find pl (c_name k) (m_name y) = Some n -> y = x) ->
+  find_fn (emit_fns pl k ms) n = Some (moved_fn pl k x n).
+Proof.
+  induction ms as [|y tl IH]; simpl; intros Hx Hp Hu; [contradiction|].
+  destruct (plan_find pl (c_name k) (m_name y)) as [n'|] eqn:E; simpl.
+  - destruct (Nat.eqb n' n) eqn:En.
+    + apply Nat.eqb_eq in En. subst n'. rewrite (Hu y (or_introl eq_refl) E). reflexivity.
+    + destruct Hx as [->|Hx]; [rewrite Hp in E; inversion E; subst; rewrite Nat.eqb_refl in En; discriminate|].
+      apply IH; auto.
+  - destruct Hx as [->|Hx]; [congruence|]. apply IH; auto.
+Qed.
+
+Definition ms_cls_of (pl : list ((name * name) * name)) (k : cls) : cls :=
+  mkCls (c_name k) (c_base k)
+        (flat_map (fun x => match plan_find pl (c_name k) (m_name x) with
+                            | Some _ => []
+                            | None => [mkMeth (m_name x) (m_kind x) (m_params x)
+                                              (map (ms_act pl (Some (c_name k))) (m_body x))] end) (c_meths k))
+        (c_alias k).
+Lemma ms_items_cls pl k0 tl :
+  ms_items pl (IClass k0 :: tl) = emit_fns pl k0 (c_meths k0) ++ IClass (ms_cls_of pl k0) :: ms_items pl tl.
+Proof. unfold ms_items at 1. cbn [flat_map]. rewrite <- app_assoc. reflexivity. Qed.
+Lemma ms_items_fn pl g tl :
+  ms_items pl (IFunc g :: tl) = IFunc (mkFunc (f_name g) (f_params g) (map (ms_act pl None) (f_body g))) :: ms_items pl tl.
+Proof. reflexivity. Qed.
+
+Lemma ms_items_find pl its k x n :
+  In (IClass k) its -> In x (c_meths k) -> plan_find pl (c_name k) (m_name x) = Some n ->
+  (forall g, In (IFunc g) its -> f_name g <> n) ->
+  (forall k0 y, In (IClass k0) its -> In y (c_meths k0) -> plan_find pl (c_name k0) (m_name y) = Some n ->
+                k0 = k /\ y = x) ->
+  find_fn (ms_items pl its) n = Some (moved_fn pl k x n).
+Proof.
+  induction its as [|[k0|g] tl IH]; intros Hk Hx Hp Hf Hu; [contradiction| |].
+  - rewrite ms_items_cls, find_fn_app.
+    destruct (existsb (fun y => match plan_find pl (c_name k0) (m_name y) with
+                                | Some n' => Nat.eqb n' n | None => false end) (c_meths k0)) eqn:Ex.
+    + apply existsb_exists in Ex. destruct Ex as [y [Hy Ey]].
+      destruct (plan_find pl (c_name k0) (m_name y)) as [n'|] eqn:Epy; [|discriminate].
+      apply Nat.eqb_eq in Ey. subst n'.
+      destruct (Hu k0 y (or_introl eq_refl) Hy Epy) as [-> ->].
+      rewrite (emit_found pl k (c_meths k) x n Hx Hp); [reflexivity|].
+      intros y' Hy' Hp'. apply (Hu k y'); simpl; auto.
+    + rewrite emit_none.
+      * cbn [find_fn]. destruct Hk as [Hk|Hk].
+        -- inversion Hk; subst k0. exfalso.
+           assert (existsb (fun y => match plan_find pl (c_name k) (m_name y) with
+                                     | Some n' => Nat.eqb n' n | None => false end) (c_meths k) = true); [|congruence].
+           apply existsb_exists. exists x. split; [exact Hx|]. rewrite Hp. apply Nat.eqb_refl.
+        -- apply IH; auto; [intros g Hg; apply Hf; right; exact Hg|].
+           intros k1 y H1 H2 H3. apply (Hu k1 y); simpl; auto.
+      * intros y Hy Hpy. assert (existsb (fun y => match plan_find pl (c_name k0) (m_name y) with
+                                     | Some n' => Nat.eqb n' n | None => false end) (c_meths k0) = true); [|congruence].
+        apply existsb_exists. exists y. split; [exact Hy|]. rewrite Hpy. apply Nat.eqb_refl.
+  - rewrite ms_items_fn. cbn [find_fn f_name]. destruct Hk as [Hk|Hk]; [discriminate|].
+    assert (Nat.eqb (f_name g) n = false) as ->.
+    { apply Nat.eqb_neq. apply Hf. left; reflexivity. }
+    apply IH; auto; [intros g' Hg; apply Hf; right; exact Hg|].
+    intros k1 y H1 H2 H3. apply (Hu k1 y); simpl; auto.
+Qed.
+
+(* T02k_move_static_redirect: a static method x of class k that the rule moves (new name n) becomes a
+   module-level function n with the parameters and the (redirected) body of x; n is bound by nothing else
+   (no other function, no stored name), so every redirected access `C.m(args)` / `C().m(args)` / `self.m(args)`
+   -> `n(args)` reaches that body with the same arity test and no first argument, as the static method did. *)
+Theorem move_static_redirect M k x n :
+  uniq_cls M = true -> uniq_meths M = true -> nodup_names (map snd (ms_plan M)) = true ->
+  In k (classes M) -> c_base k = None -> In x (c_meths k) -> ms_new_name M k x = Some n ->
+  m_kind x = KStatic /\
+  resolve (ms_pass M) SNone None RMod n = TFn (moved_fn (ms_plan M) k x n) /\
+  f_params (moved_fn (ms_plan M) k x n) = m_params x /\
+  f_body (moved_fn (ms_plan M) k x n) = map (ms_act (ms_plan M) (Some (c_name k))) (m_body x).
+Proof.
+  intros Hu Hm Hnd Hk Hb Hx Hn.
+  destruct (ms_new_name_facts M k x n Hn) as [Hkind [Hfresh _]].
+  split; [exact Hkind|]. split; [|split; reflexivity].
+  pose proof (plan_in M k x n Hk Hb Hx Hn) as Hin.
+  assert (Hkey : forall c m n1 n2, In ((c, m), n1) (ms_plan M) -> In ((c, m), n2) (ms_plan M) -> n1 = n2).
+  { intros c m n1 n2 H1 H2.
+    destruct (plan_inv M c m n1 H1) as [k1 [x1 [Hk1 [_ [Hx1 [Ec1 [Em1 Hn1]]]]]]].
+    destruct (plan_inv M c m n2 H2) as [k2 [x2 [Hk2 [_ [Hx2 [Ec2 [Em2 Hn2]]]]]]].
+    assert (k1 = k2) by (eapply (nodup_names_inj c_name); eauto; congruence). subst k2.
+    assert (x1 = x2).
+    { eapply (nodup_names_inj m_name); eauto; [|congruence]. unfold uniq_meths in Hm.
+      rewrite forallb_forall in Hm. apply Hm. exact Hk1. }
+    subst x2. congruence. }
+  assert (Hpf : plan_find (ms_plan M) (c_name k) (m_name x) = Some n).
+  { apply plan_find_in; auto. intros n' Hn'. eapply Hkey; eauto. }
+  unfold resolve, ms_pass. rewrite Hnd. cbn [m_stores m_items].
+  assert (Hsplit : nmem n (map f_name (funcs M)) = false /\ nmem n (m_stores M) = false).
+  { unfold static_names, nmem in Hfresh. rewrite existsb_app in Hfresh. apply orb_false_iff in Hfresh. exact Hfresh. }
+  destruct Hsplit as [Hf1 Hf2]. rewrite Hf2.
+  rewrite (ms_items_find (ms_plan M) (m_items M) k x n); auto.
+  - apply in_classes. exact Hk.
+  - intros g Hg En. assert (nmem n (map f_name (funcs M)) = true); [|congruence].
+    apply nmem_In. apply in_map_iff. exists g. split; [exact En|]. unfold funcs. apply in_flat_map.
+    exists (IFunc g). split; [exact Hg|left; reflexivity].
+  - intros k0 y Hk0 Hy Hp0. apply plan_find_some in Hp0. apply in_classes in Hk0.
+    assert (Ekey : (c_name k0, m_name y) = (c_name k, m_name x)) by (eapply nodup_snd_inj; eauto).
+    inversion Ekey as [[E1 E2]].
+    assert (k0 = k) by (eapply (nodup_names_inj c_name); eauto). subst k0. split; [reflexivity|].
+    eapply (nodup_names_inj m_name); eauto. unfold uniq_meths in Hm. rewrite forallb_forall in Hm. apply Hm. exact Hk.
+Qed.
+
+Lemma find_meth_nodup l y :
+  nodup_names (map m_name l) = true -> In y l -> find_meth l (m_name y) = Some y.
+Proof.
+  induction l as [|z tl IH]; simpl; [contradiction|].
+  intros Hn [->|Hy]; [rewrite Nat.eqb_refl; reflexivity|].
+  apply andb_true_iff in Hn. destruct Hn as [Hn1 Hn2].
+  destruct (Nat.eqb (m_name z) (m_name y)) eqn:E; [|apply IH; auto].
+  apply Nat.eqb_eq in E. apply negb_true_iff in Hn1.
+  assert (nmem (m_name z) (map m_name tl) = true); [|congruence].
+  apply nmem_In. apply in_map_iff. exists y. split; [congruence|exact Hy].
+Qed.
+
+(* the access that is redirected meant this method: C.m on a class without bases, whose method names
+   are distinct and which no alias hides *)
+Theorem move_static_original M k x n nargs :
+  uniq_cls M = true -> uniq_meths M = true -> wf_mod M = true ->
+  In k (classes M) -> c_base k = None -> In x (c_meths k) -> ms_new_name M k x = Some n ->
+  resolve M SNone None (RCls (c_name k)) (m_name x) = TMeth (ViaCls (c_name k)) (c_name k) x /\
+  bind (ViaCls (c_name k)) x nargs = (SNone, Nat.eqb (m_params x) nargs).
+Proof.
+  intros Hu Hm Hwf Hk Hb Hx Hn.
+  destruct (ms_new_name_facts M k x n Hn) as [Hkind _].
+  split; [|unfold bind; rewrite Hkind; reflexivity].
+  unfold resolve. apply in_classes in Hk.
+  rewrite (find_cls_uniq (m_items M) (c_name k) k); auto. unfold CHAIN_FUEL. simpl.
+  rewrite (find_cls_uniq (m_items M) (c_name k) k); auto. rewrite Hb. simpl.
+  assert (Ha : cls_attr k (m_name x) = Some x).
+  { unfold cls_attr. apply in_classes in Hk.
+    rewrite (not_alias M Hwf k (m_name x) Hk).
+    - apply find_meth_nodup; auto. unfold uniq_meths in Hm. rewrite forallb_forall in Hm. apply Hm. exact Hk.
+    - apply nmem_In. unfold all_meth_names. apply in_flat_map. exists k. split; [exact Hk|].
+      apply in_map_iff. exists x. auto. }
+  rewrite Ha. reflexivity.
+Qed.
